@@ -8,7 +8,7 @@ Property theorems only.  `Model/Lemmatize` mirrors `lemmatize.py` (`genExp`, `ex
 
 * unbounded (every table, lemma, lexicon entry satisfying the stated decidable hypotheses, which the driver
   evaluates on every real lexicon entry on every run): `expandConj_sound_en`, `expandConj_sound_fr`,
-  `expandConj_sound_refl`, `expandConj_refl_text`, `expandConj_complete` (refuted / partial), `intr_veto`,
+  `expandConj_sound_refl`, `expandConj_refl_text`, `expandConj_complete_cells`, `intr_veto`, `expandConj_complete`,
   `expandDecl_sound` (nouns, adjectives, adverbs), `expandDecl_complete`;
 * finite, `decide +kernel` over the complete generated tables, re-proved whenever /repo changes:
   `conj_wf_tbl`, `distinct_rows_tbl` (+ `distinct_rows_all`: its reading as a ∀), `closed_class_tbl`. -/
@@ -88,25 +88,20 @@ theorem conj_wf_tbl_holds : conj_wf_tbl := by
 
 /-! ## conjugation: completeness -/
 
-/-- **C18.d** (full strength) every non-null cell of every row of the verb's table is listed for the verb -/
-def expandConj_complete : Prop :=
+/-- **C18.d** every non-null cell of every row of the verb's table is listed for the verb, except cells 1–3
+    (feminine, plural) of the participle of a verb whose lexicon entry says `pat == ["intr"]` and whose auxiliary is
+    avoir (lemmatize.py as repaired by /repo commit 73767de: before it the exception ignored the auxiliary and
+    `allée`, `arrivés`, `nées` … were missing) -/
+def expandConj_complete_cells : Prop :=
   ∀ (lang : Decl.Lang) (rules : Conj.Rules) (v : Conj.Verb) (tb : Conj.Table) (l : List Pair),
     VerbOK (match lang with | .en => wfConjEn | .fr => wfConjFr) rules v tb →
     expandConjugation lang rules v.lemma v.tab (some v) = .ok l →
     ∀ t row, (t, row) ∈ tb.rows → ∀ i c, (i, c) ∈ icells row →
+      ((∃ cells, row = .list cells ∧ cells.length = 4) → v.pat = some ["intr".toList] →
+        v.aux.getD "av".toList = "av".toList → i = 0) →
       ∃ e, (Pyrealb.dropRight v.lemma tb.ending.length ++ c, e) ∈ l
 
-/-- what IS true: every cell is listed except cells 1–3 (feminine, plural) of the participle of a verb whose
-    lexicon entry says `pat == ["intr"]` -/
-def expandConj_complete_partial_stmt : Prop :=
-  ∀ (lang : Decl.Lang) (rules : Conj.Rules) (v : Conj.Verb) (tb : Conj.Table) (l : List Pair),
-    VerbOK (match lang with | .en => wfConjEn | .fr => wfConjFr) rules v tb →
-    expandConjugation lang rules v.lemma v.tab (some v) = .ok l →
-    ∀ t row, (t, row) ∈ tb.rows → ∀ i c, (i, c) ∈ icells row →
-      ((∃ cells, row = .list cells ∧ cells.length = 4) → v.pat = some ["intr".toList] → i = 0) →
-      ∃ e, (Pyrealb.dropRight v.lemma tb.ending.length ++ c, e) ∈ l
-
-theorem expandConj_complete_partial : expandConj_complete_partial_stmt := by
+theorem expandConj_complete_cells_holds : expandConj_complete_cells := by
   intro lang rules v tb l h hl t row hm i c hic hx
   have hT : tb.hasT = true := by
     cases lang
@@ -146,38 +141,8 @@ theorem expandConj_complete_partial : expandConj_complete_partial_stmt := by
   obtain ⟨e, he⟩ := tenseRow_complete hshape ha hic hx
   exact ⟨e, hsub _ he⟩
 
-/-- the witness of the refutation: `aller` (table v137, auxiliary être, `pat == ["intr"]`) on the shipped tables -/
-def allerV : Conj.Verb :=
-  { lemma := "aller".toList, tab := "v137".toList, aux := some "êt".toList, pat := some ["intr".toList] }
-
-/-- what the model of the unchanged code lists for `aller` -/
-def allerPairs : List Pair :=
-  match expandConjugation .fr Gen.ConjFr.tables allerV.lemma allerV.tab (some allerV) with
-  | .ok l => l
-  | .error _ => []
-
-set_option maxRecDepth 100000 in
-/-- the unchanged code omits `allée`, `allés`, `allées` -/
-theorem expandConj_complete_refuted : ¬ expandConj_complete := by
-  intro h
-  have hv : VerbOK wfConjFr Gen.ConjFr.tables allerV Gen.ConjFr.t_v137 :=
-    ⟨by decide +kernel, by decide +kernel, by decide +kernel, by decide +kernel⟩
-  have hl : expandConjugation .fr Gen.ConjFr.tables allerV.lemma allerV.tab (some allerV) = .ok allerPairs := by
-    decide +kernel
-  have hno : allerPairs.all (fun p => p.1 ≠ "allée".toList) = true := by decide +kernel
-  obtain ⟨e, he⟩ := h .fr Gen.ConjFr.tables allerV Gen.ConjFr.t_v137 allerPairs hv hl "pp".toList
-    (.list [some "allé".toList, some "allée".toList, some "allés".toList, some "allées".toList]) (by decide +kernel)
-    1 "allée".toList (by decide +kernel)
-  rw [List.all_eq_true] at hno
-  have hne := of_decide_eq_true (hno _ he)
-  have hform : dropRight allerV.lemma Gen.ConjFr.t_v137.ending.length ++ "allée".toList = "allée".toList := by
-    decide +kernel
-  exact hne hform
-
-/-- **C18.e** the cells the expansion leaves out are exactly those the realizer refuses — when the auxiliary is
-    avoir: for `pat == ["intr"]` and auxiliary `av`, asking for the feminine or the plural of the participle gives
-    the bracketed lemma and one warning.  (With `êt`/`aê` the realizer answers the cell: the omission is the
-    defect recorded in known_findings.d/C18.json.) -/
+/-- **C18.e** the cells the expansion leaves out are exactly those the realizer refuses: for `pat == ["intr"]` and
+    auxiliary `av`, asking for the feminine or the plural of the participle gives the bracketed lemma and one warning -/
 def intr_veto : Prop :=
   ∀ (rules : Conj.Rules) (env : ConjFr.FrEnv) (v : Conj.Verb) (tb : Conj.Table) (pe : Conj.Person) (n : Conj.Num)
     (g : Conj.Gender),
@@ -201,6 +166,66 @@ theorem intr_veto_holds : intr_veto := by
   unfold ConjFr.conjugateSimple
   simp only [htab, h.tab, hhas, if_true, hrow, Conj.Row.at, hcell, hv]
   rfl
+
+/-- **C18.d'** (full strength, over the cells the entry can realize) French: every non-null cell of every row of the
+    verb's table is listed for the verb, or it is a participle cell (gender `g`, number `n`) that the realizer
+    refuses for this verb at every person: the bracketed lemma and one warning -/
+def expandConj_complete : Prop :=
+  ∀ (rules : Conj.Rules) (env : ConjFr.FrEnv) (v : Conj.Verb) (tb : Conj.Table) (l : List Pair),
+    VerbOK wfConjFr rules v tb →
+    expandConjugation .fr rules v.lemma v.tab (some v) = .ok l →
+    ∀ t row, (t, row) ∈ tb.rows → ∀ i c, (i, c) ∈ icells row →
+      (∃ e, (Pyrealb.dropRight v.lemma tb.ending.length ++ c, e) ∈ l) ∨
+      (t = "pp".toList ∧ ∃ n g, ConjFr.idx4 n g = i ∧ ∀ pe,
+        ConjFr.conjugate rules env v.lemma (some v) none pe n g .pp = .ok (Conj.morphoError v.lemma 0))
+
+theorem expandConj_complete_holds : expandConj_complete := by
+  intro rules env v tb l h hl t row hm i c hic
+  by_cases hcond : (∃ cells, row = .list cells ∧ cells.length = 4) ∧ v.pat = some ["intr".toList] ∧
+      v.aux.getD "av".toList = "av".toList ∧ i ≠ 0
+  · right
+    obtain ⟨⟨cells, rfl, hlen⟩, hintr, haux, hi0⟩ := hcond
+    obtain ⟨hwf, _, hnd, _⟩ := wfConjFr_elim h.wf
+    have hrow : tb.row? t = some (.list cells) := lookup_of_mem_nodup hm hnd
+    have hall := hwf
+    unfold Conj.wfTableFr at hall
+    simp only [Bool.and_eq_true, List.all_eq_true] at hall
+    have hr := hall.1.2 _ hm
+    cases hoc : Conj.Tense.ofCode? t with
+    | none => simp [Conj.wfRowFr, hoc] at hr
+    | some tt =>
+      have hcode := ofCode_some hoc
+      have htt : tt = .pp := by
+        rcases wfRowFr_elim hoc hr with ⟨_, cells', hc', hlen'⟩ | ⟨h1, _⟩ | ⟨_, ⟨x, hx⟩ | hx⟩ | ⟨_, x, hx⟩
+        · cases hc'; omega
+        · exact h1
+        · cases hx
+        · cases hx
+        · cases hx
+      subst htt
+      have htpp : t = "pp".toList := hcode.symm
+      subst htpp
+      obtain ⟨hil, _⟩ := icells_list hic
+      have hcases : i = 1 ∨ i = 2 ∨ i = 3 := by omega
+      have key : ∀ n g, ConjFr.idx4 n g = i → ∀ pe,
+          ConjFr.conjugate rules env v.lemma (some v) none pe n g .pp = .ok (Conj.morphoError v.lemma 0) := by
+        intro n g hidx pe
+        refine intr_veto_holds rules env v tb pe n g h hintr haux (by omega) ⟨c, ?_⟩
+        rw [hrow, hidx]
+        exact hic
+      refine ⟨rfl, ?_⟩
+      rcases hcases with rfl | rfl | rfl
+      · exact ⟨.s, .f, rfl, key .s .f rfl⟩
+      · exact ⟨.p, .m, rfl, key .p .m rfl⟩
+      · exact ⟨.p, .f, rfl, key .p .f rfl⟩
+  · left
+    refine expandConj_complete_cells_holds .fr rules v tb l h hl t row hm i c hic ?_
+    intro h4 hintr haux
+    exact Classical.byContradiction (fun hne => hcond ⟨h4, hintr, haux, hne⟩)
+
+/-- `aller` (table v137, auxiliary être, `pat == ["intr"]`) on the shipped tables -/
+def allerV : Conj.Verb :=
+  { lemma := "aller".toList, tab := "v137".toList, aux := some "êt".toList, pat := some ["intr".toList] }
 
 /-! ## declension: soundness (open classes N, A, Adv) -/
 
@@ -359,5 +384,13 @@ example : ctorOK Gen.DeclEn.tables goodLex .en .A "good".toList "a15".toList [] 
       { g := .str "n".toList, n := .str "s".toList } = true
     ∧ DistinctRows .en .A "a15".toList Gen.DeclEn.t_a15 { g := .str "n".toList, n := .str "s".toList } = true := by
   decide +kernel
+
+-- test (not a property theorem): since commit 73767de the expansion of `aller` lists `allée` as V("aller").t("pp").g("f")
+def alleeExp : Exp :=
+  { pos := "V".toList, lemma := "aller".toList, opts := [("t".toList, .str "pp".toList), ("g".toList, .str "f".toList)] }
+set_option maxRecDepth 100000 in
+example : (match expandConjugation .fr Gen.ConjFr.tables allerV.lemma allerV.tab (some allerV) with
+           | .ok l => l.contains ("allée".toList, alleeExp)
+           | .error _ => false) = true := by decide +kernel
 
 end Pyrealb.C18
